@@ -11,6 +11,7 @@ MODELS = {
     "MC_Codec": {"tla": "MC_Codec.tla", "cfg": "MC_Codec.cfg"},
     "MC_Decode": {"tla": "MC_Decode.tla", "cfg": "MC_Decode.cfg", "cfg_thorough": "MC_Decode_full.cfg"},
     "MC_Layout": {"tla": "MC_Layout.tla", "cfg": "MC_Layout.cfg", "cfg_thorough": "MC_Layout_full.cfg"},
+    "MC_Link": {"tla": "MC_Link.tla", "cfg": "MC_Link.cfg", "cfg_thorough": "MC_Link_two.cfg"},
     "MC_Endpoint": {"tla": "MC_Endpoint.tla", "cfg": "MC_Endpoint.cfg", "cfg_thorough": "MC_Endpoint_two.cfg"},
 }
 
@@ -37,16 +38,16 @@ P("C01", "model_checking",
   models=["MC_Codec"], families=["requests", "responses", "vendor", "lengths"])
 P("C02", "model_checking",
   "non-trivial = decode/process of a byte string whose last byte is not the PEC of the rest (every <=8-bit burst of every corpus packet, wrong PEC bytes, random strings); distinct = distinct (context, input bytes)",
-  models=["MC_Pec", "MC_Decode", "MC_Endpoint"], gen=["GenEndpoint"], families=["corrupt"])
+  models=["MC_Pec", "MC_Decode", "MC_Endpoint", "MC_Link"], gen=["GenEndpoint"], families=["corrupt"])
 P("C03", "model_checking",
   "non-trivial = an encoder call that returned Ok (PEC of the output recomputed by the spec); distinct = distinct encoder arguments",
-  models=["MC_Pec", "MC_Codec"], families=["lengths", "requests", "responses", "vendor"])
+  models=["MC_Pec", "MC_Codec"], families=["forge", "lengths", "requests", "responses", "vendor"])
 P("C04", "model_checking",
   "non-trivial = an encoder call with 7-bit source/destination that returned Ok or whose message does not fit; distinct = distinct arguments",
-  models=["MC_Codec"], families=["lengths", "requests", "responses", "vendor"])
+  models=["MC_Codec", "MC_Link"], families=["forge", "lengths", "requests", "responses", "vendor"])
 P("C05", "model_checking",
   "non-trivial = an encoder call that returned Ok; distinct = distinct (context address, arguments)",
-  models=["MC_Codec"], families=["hdr_sweep", "requests", "responses", "vendor"])
+  models=["MC_Codec"], families=["forge", "hdr_sweep", "requests", "responses", "vendor"])
 P("C06", "model_checking",
   "non-trivial = a control request encoder call that returned Ok; distinct = distinct (encoder, arguments)",
   models=["MC_Codec"], families=["requests"])
@@ -67,16 +68,16 @@ P("C11", "model_checking",
   models=["MC_Endpoint"], gen=["GenEndpoint", "GenEndpointSim"], families=["forge", "robust", "corrupt"])
 P("C12", "model_checking",
   "non-trivial = process_packet on an accepted control request in C12's domain (answerable command, source address = source EID < 0x80, D = 0); distinct = distinct (context, request bytes)",
-  models=["MC_Endpoint"], gen=["GenEndpoint", "GenEndpointSim"], families=["forge", "vendor_enum", "identity", "history"])
+  models=["MC_Endpoint", "MC_Link"], gen=["GenEndpoint", "GenEndpointSim"], families=["forge", "vendor_enum", "identity", "history"])
 P("C13", "model_checking",
   "non-trivial = a processed Set/Get Endpoint ID packet (accepted, rejected or corrupted) or a direct accessor call; every event with a context is an evaluation of 'nothing else changes it'; distinct = distinct (context, input)",
-  models=["MC_Endpoint"], gen=["GenEndpoint", "GenEndpointSim"], families=["history", "forge", "corrupt"])
+  models=["MC_Endpoint", "MC_Link"], gen=["GenEndpoint", "GenEndpointSim"], families=["history", "forge", "corrupt"])
 P("C14", "model_checking",
   "non-trivial = process_packet on an accepted Get Vendor Defined Message Support request with selector < n; distinct = distinct (configuration, request)",
-  models=["MC_Endpoint"], gen=["GenEndpoint", "GenEndpointSim"], families=["vendor_enum", "forge"])
+  models=["MC_Endpoint", "MC_Link"], gen=["GenEndpoint", "GenEndpointSim"], families=["vendor_enum", "forge"])
 P("C15", "model_checking",
   "non-trivial = process_packet on an accepted Get UUID / Get Version / Get Message Type Support request; distinct = distinct (configuration, UUID history, request)",
-  models=["MC_Endpoint"], gen=["GenEndpoint", "GenEndpointSim"], families=["identity", "forge"])
+  models=["MC_Endpoint", "MC_Link"], gen=["GenEndpoint", "GenEndpointSim"], families=["identity", "forge"])
 P("C16", "model_checking",
   "every encoder call is an evaluation (refusal table, exact write extent via poisoned buffers, independence from capacity/poison via repeated calls); distinct = distinct (arguments, capacity, poison)",
   models=["MC_Codec"], families=["requests", "responses", "vendor", "lengths"])
